@@ -81,3 +81,8 @@ package builtins
 //@ func Builtins
 //@ props C11
 //@ ensures[C11.builtins.unowned] forallU(k, string, haskey(result, k) ==> typeof(result[k]) == *object.Builtin && ref(result[k]) != nil && result[k].(*object.Builtin).module == nil)
+
+// C05: Map.StringKeys() enumerates in Go's map order (object inventory: "sorted by the caller"). Its callers in this
+// package are listed; each sorts the keys before anything observable depends on their order (encodeCsv: sort.Strings
+// on the next line). sorted(map) must obtain the keys through Map.Keys(), which sorts.
+//@ scan[C05.stringkeys.callers.builtins] C05 extcalls github.com/risor-io/risor/object.(*Map).StringKeys: encodeCsv
